@@ -2,12 +2,12 @@
 //! against an outcome computed from the whole byte stream only.
 use fixed_buffer::FixedBuf;
 use servlin::internal::{read_http_head, read_http_request, HttpError};
-use verif_replay::{block_on, ScriptReader, Step};
+use verif_replay::{block_on, poll_n, ScriptReader, Step};
 
 const N: usize = 64; // head buffer size used by the search (the code is generic in it)
 
 #[derive(Debug, PartialEq, Clone)]
-enum Out { Head { consumed: usize }, ParseErr { consumed: usize }, TooLong, Disconnected, Truncated, Panic }
+enum Out { Head { consumed: usize }, ParseErr { consumed: usize }, TooLong, Disconnected, Truncated, Panic, Waiting }
 
 fn expected_class(t: &[u8]) -> Out {
     // outcome as a function of the stream only
@@ -17,16 +17,18 @@ fn expected_class(t: &[u8]) -> Out {
         _ => if t.len() >= N { Out::TooLong } else if t.is_empty() { Out::Disconnected } else { Out::Truncated },
     }
 }
-fn run(t: &[u8], cuts: &[usize]) -> (Out, usize) {
+fn run(t: &[u8], cuts: &[usize]) -> (Out, usize) { run_end(t, cuts, "eof") }
+/// `ending`: what the peer does after the bytes -- closes (eof), resets (fail), or keeps the connection open and silent (idle)
+fn run_end(t: &[u8], cuts: &[usize], ending: &str) -> (Out, usize) {
     let mut steps = Vec::new();
     let mut prev = 0;
     for &c in cuts { if c > prev && c < t.len() { steps.push(Step::Data(t[prev..c].to_vec())); prev = c; } }
     if prev < t.len() { steps.push(Step::Data(t[prev..].to_vec())); }
-    steps.push(Step::Eof);
+    steps.push(match ending { "fail" => Step::Fail, "idle" => Step::Idle, _ => Step::Eof });
     let r = std::panic::catch_unwind(|| {
         let mut buf: FixedBuf<N> = FixedBuf::new();
         let mut rd = ScriptReader::new(steps);
-        let res = block_on(read_http_head(&mut buf, &mut rd));
+        let res = match poll_n(read_http_head(&mut buf, &mut rd), 8) { Some(r) => r, None => return (Out::Waiting, 0) };
         let leftover = buf.len();
         let consumed = rd.delivered.len() - leftover;
         (match res {
@@ -49,6 +51,18 @@ fn check(t: &[u8], cuts: &[usize]) -> Option<String> {
     let (base, _) = run(t, &[]);
     if !ok { return Some(format!("head bytes={} cuts={cuts:?} expected={want:?} actual={got:?}", hex(t))); }
     if got != base { return Some(format!("head bytes={} cuts={cuts:?} expected=same-as-unsplit({base:?}) actual={got:?}", hex(t))); }
+    None
+}
+/// the outcome is decided by the bytes received: once they hold a whole head, or fill the buffer without one, the answer
+/// is given without waiting for the peer; a reset counts like a close; only an unfinished head waits for an idle peer
+fn check_ending(t: &[u8], cuts: &[usize], ending: &str) -> Option<String> {
+    let (got, _) = run_end(t, cuts, ending);
+    let want = match (expected_class(t), ending) { (Out::Disconnected | Out::Truncated, "idle") => Out::Waiting, (w, _) => w };
+    let ok = match (&got, &want) {
+        (Out::Head { consumed: a }, Out::Head { consumed: b }) | (Out::ParseErr { consumed: a }, Out::Head { consumed: b }) => a == b,
+        (a, b) => a == b,
+    };
+    if !ok { return Some(format!("ending={ending} bytes={} cuts={cuts:?} expected={want:?} actual={got:?}", hex(t))); }
     None
 }
 /// two requests on one stream through read_http_request with a 64-byte buffer: both must parse for
@@ -136,6 +150,13 @@ fn main() {
             let cut: usize = w.split("cuts=[").nth(1).unwrap().split(']').next().unwrap().trim().parse().unwrap_or(0);
             match check_partial_second(cut) { Some(m) => { println!("WITNESS {m}"); std::process::exit(1) } None => { println!("OK witness no longer fails"); std::process::exit(0) } }
         }
+        if w.starts_with("ending=") {
+            let ending = w["ending=".len()..].split(' ').next().unwrap().to_string();
+            let bytes = unhex(w.split("bytes=").nth(1).unwrap().split(' ').next().unwrap());
+            let cs = w.split("cuts=[").nth(1).unwrap().split(']').next().unwrap();
+            let cuts: Vec<usize> = cs.split(',').filter_map(|x| x.trim().parse().ok()).collect();
+            match check_ending(&bytes, &cuts, &ending) { Some(m) => { println!("WITNESS {m}"); std::process::exit(1) } None => { println!("OK witness no longer fails"); std::process::exit(0) } }
+        }
         if w.starts_with("reqstream") {
             let bytes = unhex(w.split("bytes=").nth(1).unwrap().split(' ').next().unwrap());
             let cs = w.split("cuts=[").nth(1).unwrap().split(']').next().unwrap();
@@ -194,6 +215,11 @@ fn main() {
             n += 1;
             if let Some(m) = check(t, cuts) { if found.len() < 5 { found.push(m) } }
         }
+        // what the peer does after the bytes: reset, or silence on an open connection
+        for ending in ["fail", "idle"] { for cuts in cutsets.iter().take(3).chain(cutsets.last()) {
+            n += 1;
+            if let Some(m) = check_ending(t, cuts, ending) { if found.len() < 5 { found.push(m) } }
+        } }
     }
     for second_len in [20usize, 40, 48, 60, 64] {
         let first = b"GET /a HTTP/1.1\r\n\r\n".to_vec();
